@@ -2,6 +2,7 @@ import Proofs.WrapMain
 import Proofs.WrapBlock2
 import Proofs.WrapGeom
 import Proofs.WrapSect6
+import Proofs.MaxLineLength
 /-!
 C07 — side-by-side view: correct panels, fixed geometry, lossless wrapping.
 
@@ -662,5 +663,241 @@ theorem wrap_sectioning_dependent_wide_symbol_witness :
         [(0, [c "b", c "a", c "z"]), (1, [c ")", c " ", c "s"])] 4 0 none).map contents
       = .ok [["b", "a", "z"], [")", " ", "s"]] := by
   constructor <;> rfl
+
+/-! ## The input line is not cut before it is wrapped
+
+`StateMachine::ingest_line_utf8` truncates every input line to `Config::max_line_length` columns *before*
+anything is wrapped. In side-by-side mode that value is not the `--max-line-length` option but
+`WrapConfig::config_max_line_length(option, terminal width)`, whose `match` arms are translated from the
+source (`Generated.configMaxLineLength`; the call in `Config::from`: `Generated.configMaxLen`; the reading
+of `--wrap-max-lines`: `MaxLen.maxLinesOfArg`). "Joining the fragments gives back the line; only beyond
+the configured number of wrapped rows is the rest cut" needs: unlimited rows ⇒ no truncation at all;
+`N` rows ⇒ the text those rows can show is never cut before wrapping. -/
+
+section MaxLineLength
+open MaxLen SideBySide
+
+/-- **max_line_length_exact.** `WrapConfig::config_max_line_length` for ALL values: `max_lines = 1`
+(`--wrap-max-lines 0`, no wrapping) keeps the option; `max_lines = 0` (unlimited rows) or option 0 gives 0 =
+"never truncate"; otherwise `max(option, n panes + max(25 % of n panes, one pane))` with
+pane = terminal width / 2. -/
+theorem max_line_length_exact (n mll w : Nat) :
+    Generated.configMaxLineLength n mll w =
+      if n = 1 then mll
+      else if n = 0 ∨ mll = 0 then 0
+      else max mll (w / 2 * n + max (w / 2 * n / 4) (w / 2)) :=
+  cml_spec n mll w
+
+example : Generated.configMaxLineLength 3 3000 80 = 3000 ∧ Generated.configMaxLineLength 3 20 80 = 160 ∧
+    Generated.configMaxLineLength 6 100 80 = 300 ∧ Generated.configMaxLineLength 0 20 80 = 0 ∧
+    Generated.configMaxLineLength 1 20 80 = 20 ∧ Generated.configMaxLineLength 7 0 80 = 0 := by decide
+
+/-- **max_line_length_unlimited_wrap.** `--side-by-side --wrap-max-lines unlimited` (also `∞`, `inf…`):
+`Config::max_line_length = 0` whatever `--max-line-length`, `--width` and the terminal width are. -/
+theorem max_line_length_unlimited_wrap (mll T : Nat) (fw : Option Nat) : configMaxLen true none mll T fw = 0 := by
+  simp [configMaxLen, Generated.configMaxLen, maxLinesOfArg, Generated.wrapMaxLinesUnlimited, cml_unlimited]
+
+/-- **max_line_length_zero_iff.** In side-by-side mode the input is never truncated (`= 0`) exactly when
+the rows are unlimited or the user asked for no truncation (`--max-line-length 0`). -/
+theorem max_line_length_zero_iff (wml : Option Nat) (mll T : Nat) (fw : Option Nat) :
+    configMaxLen true wml mll T fw = 0 ↔ wml = none ∨ mll = 0 := by
+  cases wml with
+  | none => simp [max_line_length_unlimited_wrap]
+  | some k =>
+    simp [configMaxLen, Generated.configMaxLen, maxLinesOfArg, Generated.wrapMaxLinesIncrement, cml_zero_iff]
+
+/-- **max_line_length_no_wrap.** Without side-by-side, and with `--wrap-max-lines 0` (one row, no
+wrapping), the option is used as it is. -/
+theorem max_line_length_no_wrap (wml : Option Nat) (mll T : Nat) (fw : Option Nat) :
+    configMaxLen false wml mll T fw = mll ∧ configMaxLen true (some 0) mll T fw = mll := by
+  simp [configMaxLen, Generated.configMaxLen, maxLinesOfArg, Generated.wrapMaxLinesIncrement, cml_one]
+
+/-- **max_line_length_ge_requested.** Side-by-side mode never truncates *more* than requested: the value is
+0 (no truncation) or at least the option. -/
+theorem max_line_length_ge_requested (sbs : Bool) (wml : Option Nat) (mll T : Nat) (fw : Option Nat) :
+    configMaxLen sbs wml mll T fw = 0 ∨ mll ≤ configMaxLen sbs wml mll T fw := by
+  cases sbs with
+  | false => right; simp [configMaxLen, Generated.configMaxLen]
+  | true => simpa [configMaxLen, Generated.configMaxLen] using cml_ge_requested (maxLinesOfArg wml) mll _
+
+/-- **max_line_length_enough_for_rows.** `--wrap-max-lines N` with `N ≥ 1` (`N + 1` rows) and a non-zero
+option: the value is at least `N + 2` panes (one pane more than the rows can show), at least 125 % of
+`N + 1` panes, and at least the option. Pane = `formulaWidth / 2`, where `formulaWidth` is the width
+`Config::from` passes (as pinned: the terminal width). -/
+theorem max_line_length_enough_for_rows (N mll T : Nat) (fw : Option Nat) (hN : 1 ≤ N) (hm : 0 < mll) :
+    (N + 2) * (formulaWidth T fw / 2) ≤ configMaxLen true (some N) mll T fw ∧
+    formulaWidth T fw / 2 * (N + 1) + formulaWidth T fw / 2 * (N + 1) / 4 ≤ configMaxLen true (some N) mll T fw ∧
+    mll ≤ configMaxLen true (some N) mll T fw := by
+  have := cml_enough (N + 1) mll (formulaWidth T fw) (by omega) hm
+  simpa [configMaxLen, Generated.configMaxLen, maxLinesOfArg, Generated.wrapMaxLinesIncrement, formulaWidth] using this
+
+example : configMaxLen true (some 2) 20 80 (some 80) = 160 ∧ (2 + 2) * (formulaWidth 80 (some 80) / 2) = 160 := by decide
+
+/-- **max_line_length_beyond_rows.** The text a side of the view can show in the permitted `N + 1` rows
+(line width `lw` = panel of the view width `W` minus gutter and marker; every row but the last ends with the
+one-column wrap symbol) plus the `+`/`-`/blank the raw line starts with is not more than
+`Config::max_line_length` — provided the view is not wider than the width the formula uses
+(`W ≤ formulaWidth`: on the code as pinned "`--width` is not larger than the terminal width", always so
+without `--width`; see `max_line_length_view_width` for when this is automatic) and a pane has at least 2
+columns. Stated for both panels, even and odd widths, both fill methods. (Or the value is 0: no truncation.) -/
+theorem max_line_length_beyond_rows (N mll T gutter : Nat) (fw : Option Nat) (ansi markers : Bool) (panel : Nat)
+    (hN : 1 ≤ N) (hW : viewWidth T fw ≤ formulaWidth T fw) (hT : 2 ≤ formulaWidth T fw / 2)
+    (hp : panel = (panelWidths (viewWidth T fw) ansi).1 ∨ panel = (panelWidths (viewWidth T fw) ansi).2) :
+    configMaxLen true (some N) mll T fw = 0 ∨
+      rowsCapacity (N + 1) (availableLineWidth panel gutter markers) + 1 ≤ configMaxLen true (some N) mll T fw := by
+  by_cases hm : mll = 0
+  · left; exact (max_line_length_zero_iff _ _ _ _).2 (Or.inr hm)
+  · right
+    have hs := panelWidths_spec (viewWidth T fw) ansi
+    have hpan : panel ≤ formulaWidth T fw / 2 + 1 := by
+      have : viewWidth T fw / 2 ≤ formulaWidth T fw / 2 := Nat.div_le_div_right hW
+      rcases hp with h | h <;> omega
+    have hlw : availableLineWidth panel gutter markers ≤ formulaWidth T fw / 2 + 1 := by
+      unfold availableLineWidth; split <;> omega
+    have h1 : rowsCapacity (N + 1) (availableLineWidth panel gutter markers) + 1 ≤ (N + 2) * (formulaWidth T fw / 2) :=
+      capacity_lt (N + 1) _ (formulaWidth T fw / 2) hlw hT
+    have h2 := (max_line_length_enough_for_rows N mll T fw hN (by omega)).1
+    omega
+
+example : rowsCapacity 3 (availableLineWidth (panelWidths (viewWidth 81 (some 81)) true).2 5 false) + 1 = 107 ∧
+    configMaxLen true (some 2) 20 81 (some 81) = 160 ∧ viewWidth 81 (some 81) ≤ formulaWidth 81 (some 81) := by decide
+
+/-- **max_line_length_view_width.** When is the view not wider than the width of the formula? Always, if
+`Config::from` passes the width the panels are derived from (`Generated.maxLenUsesViewWidth`, read from the
+source: false on the code as pinned, true with notes/fix-sbs-max-line-length-width.diff); on the code as
+pinned: without `--width` (then `decorations_width = Fixed(terminal width)`), with `--width variable`, and
+with `--width W` for `W ≤` terminal width. -/
+theorem max_line_length_view_width (T : Nat) (fw : Option Nat)
+    (h : Generated.maxLenUsesViewWidth = true ∨ fw = none ∨ ∃ W, fw = some W ∧ W ≤ T) :
+    viewWidth T fw ≤ formulaWidth T fw := by
+  rcases h with h | h | ⟨W, h, hW⟩
+  · revert h
+    unfold Generated.maxLenUsesViewWidth formulaWidth Generated.maxLenWidthArg viewWidth
+    cases fw <;> simp
+  · subst h
+    unfold formulaWidth Generated.maxLenWidthArg viewWidth
+    simp
+  · subst h
+    unfold formulaWidth Generated.maxLenWidthArg viewWidth
+    first
+      | exact hW
+      | exact Nat.le_refl _
+
+/-- **wrap_capacity.** What "a line fits in the permitted rows" means: when `wrap_line` places the whole
+line (it stops with the stack empty), the text of the line is at most `rows · (line width − 1) + 1` columns
+wide (`rowsCapacity`: every row but the last ends with the one-column wrap symbol) — so with
+`wrap_row_count` (`rows ≤ N + 1`) the hypothesis `hfit` of `line_that_fits_rows_not_truncated` holds for
+every line that `wrap_line` shows in full. -/
+theorem wrap_capacity (cfg : Cfg) (line : List Sec) (lw fill : Nat) (hint : Option Nat) (o : Out)
+    (hz : NlZero line) (hs1 : cfg.leftSym.w = 1)
+    (h : wrapFull cfg line lw fill hint = .ok o) (hstop : o.stop = .stackEmpty) :
+    explodeWidth (explode line) ≤ rowsCapacity o.rows.length lw := by
+  obtain ⟨st, stop, hl, hr, hw, hfs, hd, hshape⟩ := wrapFull_spec (fx := currentFixes) hz h
+  have hW := hw (by omega)
+  have hres := rowWidth_stripResult_le _ _ lw st.result hW.rows
+  rw [hs1] at hres
+  have hlen := hW.lenle
+  have hsplit : ∀ k, (k + 1) * (lw - 1) = k * (lw - 1) + (lw - 1) := fun k => by simp [Nat.succ_mul]
+  unfold rowsCapacity
+  cases hshape with
+  | plain h0 hs =>
+    have e : explodeWidth (explode line) = rowWidth (stripResult st.result) + st.len := by
+      rw [← hl.text, hs, explodeWidth_explode]; simp [rowWidth_append, hl.len]
+    have := hsplit st.result.length
+    simp only [List.length_append, List.length_singleton]
+    omega
+  | dropped h0 hs =>
+    have e : explodeWidth (explode line) = rowWidth (stripResult st.result) + st.len := by
+      rw [← hl.text, hs, explodeWidth_explode]; simp [rowWidth_append, hl.len]
+    simp only
+    omega
+  | right r hres' hne h0 hs hlw hpm hpad =>
+    have e : explodeWidth (explode line) = rowWidth (stripResult st.result) + st.len := by
+      rw [← hl.text, hs, explodeWidth_explode]; simp [rowWidth_append, hl.len]
+    rw [hres'] at hres
+    simp only [List.length_cons, List.length_nil] at hres ⊢
+    rw [hres'] at e
+    omega
+  | limit hs => cases hstop
+
+example : rowsCapacity 3 10 = 28 ∧ rowsCapacity 1 10 = 10 := by decide
+
+/-- **unlimited_wrap_never_truncated.** With `--wrap-max-lines unlimited` the truncation step of
+`ingest_line_utf8` leaves every line as it is, whatever its length and whatever `--max-line-length` says. -/
+theorem unlimited_wrap_never_truncated (mll T len : Nat) (fw : Option Nat) (sw : List UInt8 → Bool)
+    (raw tail : List Item) :
+    ingestTrunc (configMaxLen true none mll T fw) len sw raw tail = .ok raw :=
+  ingestTrunc_keeps _ _ _ _ _ (Or.inl (max_line_length_unlimited_wrap mll T fw))
+
+example : ingestTrunc (configMaxLen true none 20 80 (some 120)) 3600 (fun _ => false)
+    [.text (List.replicate 3600 ⟨"a", 1⟩)] [.text [⟨"→", 1⟩]] = .ok [.text (List.replicate 3600 ⟨"a", 1⟩)] :=
+  unlimited_wrap_never_truncated _ _ _ _ _ _ _
+
+/-- **requested_length_never_truncated.** Whatever the wrapping options are, a line the user did not ask
+to truncate (not longer than `--max-line-length` in bytes or in columns, or `--max-line-length 0`) is not
+truncated. -/
+theorem requested_length_never_truncated (sbs : Bool) (wml : Option Nat) (mll T len : Nat) (fw : Option Nat)
+    (sw : List UInt8 → Bool) (raw tail : List Item) (h : mll = 0 ∨ len ≤ mll ∨ measure raw ≤ mll) :
+    ingestTrunc (configMaxLen sbs wml mll T fw) len sw raw tail = .ok raw := by
+  apply ingestTrunc_keeps
+  rcases max_line_length_ge_requested sbs wml mll T fw with h0 | hge
+  · exact Or.inl h0
+  · rcases h with h | h | h
+    · left
+      cases sbs with
+      | false => simpa [configMaxLen, Generated.configMaxLen] using h
+      | true => exact (max_line_length_zero_iff wml mll T fw).2 (Or.inr h)
+    · right; left; omega
+    · right; right; omega
+
+/-- **line_that_fits_rows_not_truncated.** A hunk line whose text fits in the `N + 1` rows that
+`--wrap-max-lines N` (`N ≥ 1`) permits on its side of the view is not cut before it is wrapped, whatever
+`--max-line-length` says (same provisos as `max_line_length_beyond_rows`). `raw` = the raw line: one
+prefix column and the text. -/
+theorem line_that_fits_rows_not_truncated (N mll T gutter len : Nat) (fw : Option Nat) (ansi markers : Bool)
+    (panel : Nat) (sw : List UInt8 → Bool) (raw tail : List Item)
+    (hN : 1 ≤ N) (hW : viewWidth T fw ≤ formulaWidth T fw) (hT : 2 ≤ formulaWidth T fw / 2)
+    (hp : panel = (panelWidths (viewWidth T fw) ansi).1 ∨ panel = (panelWidths (viewWidth T fw) ansi).2)
+    (hfit : measure raw ≤ rowsCapacity (N + 1) (availableLineWidth panel gutter markers) + 1) :
+    ingestTrunc (configMaxLen true (some N) mll T fw) len sw raw tail = .ok raw := by
+  apply ingestTrunc_keeps
+  rcases max_line_length_beyond_rows N mll T gutter fw ansi markers panel hN hW hT hp with h | h
+  · exact Or.inl h
+  · right; right; omega
+
+example : measure [.text [⟨"+", 1⟩], .text (List.replicate 106 ⟨"x", 1⟩)] ≤
+    rowsCapacity 3 (availableLineWidth (panelWidths (viewWidth 81 (some 81)) true).2 5 false) + 1 := by decide
+
+/-- **line_shown_in_full_not_truncated.** The two halves together: a hunk line that `wrap_line` can place
+entirely (stack empty) on at most `N + 1` rows of its side's text width is handed to `wrap_line` in full —
+`ingest_line` has not cut it — whatever `--max-line-length` says. `raw` = prefix column + the line's text. -/
+theorem line_shown_in_full_not_truncated (cfg : Cfg) (line : List Sec) (fill : Nat) (hint : Option Nat) (o : Out)
+    (N mll T gutter len : Nat) (fw : Option Nat) (ansi markers : Bool) (panel : Nat)
+    (sw : List UInt8 → Bool) (raw tail : List Item)
+    (hz : NlZero line) (hs1 : cfg.leftSym.w = 1)
+    (hwrap : wrapFull cfg line (availableLineWidth panel gutter markers) fill hint = .ok o)
+    (hstop : o.stop = .stackEmpty) (hrows : o.rows.length ≤ N + 1)
+    (hN : 1 ≤ N) (hW : viewWidth T fw ≤ formulaWidth T fw) (hT : 2 ≤ formulaWidth T fw / 2)
+    (hp : panel = (panelWidths (viewWidth T fw) ansi).1 ∨ panel = (panelWidths (viewWidth T fw) ansi).2)
+    (hraw : measure raw ≤ explodeWidth (explode line) + 1) :
+    ingestTrunc (configMaxLen true (some N) mll T fw) len sw raw tail = .ok raw := by
+  have h1 := wrap_capacity cfg line _ fill hint o hz hs1 hwrap hstop
+  have h2 := rowsCapacity_mono _ _ (availableLineWidth panel gutter markers) hrows
+  exact line_that_fits_rows_not_truncated N mll T gutter len fw ansi markers panel sw raw tail hN hW hT hp (by omega)
+
+/-- **max_line_length_short_when_view_wider_than_terminal_witness** (a defect of the code as pinned, see
+notes/S3-strengthen-C07.md; conditional on the source still passing the terminal width): the pane in the
+formula is half the *terminal* width, not half of `--width`. With `--width 400` on an 80-column terminal
+(or a pipe), `--wrap-max-lines 5 --max-line-length 100`: the 6 rows of a 195-column text area show 1165
+columns, the input is cut at 300 — the hypothesis `viewWidth ≤ formulaWidth` of
+`max_line_length_beyond_rows` cannot be dropped there. -/
+theorem max_line_length_short_when_view_wider_than_terminal_witness
+    (h : Generated.maxLenUsesViewWidth = false) :
+    configMaxLen true (some 5) 100 80 (some 400) = 300 ∧
+    rowsCapacity 6 (availableLineWidth (panelWidths (viewWidth 80 (some 400)) true).1 5 false) = 1165 := by
+  revert h
+  decide
+
+end MaxLineLength
 
 end C07
